@@ -258,7 +258,12 @@ class Engine(
                     # Deduplication upstream.
                     return select
             case Projection():
-                if select.has_deduplication:
+                if select.has_deduplication and not select.sort.columns_required <= select.columns:
+                    # The existing Sort uses columns that an earlier Projection
+                    # already dropped, so it cannot be moved to a new outer
+                    # query; nest the existing Select as-is instead.
+                    return Select.apply_skip(select, projection=operation)
+                elif select.has_deduplication:
                     # There was a Duplication upstream, so we need to ensure
                     # that is applied before this Projection via a nested
                     # subquery.  Instead of applying the existing subquery
